@@ -13,7 +13,7 @@ RULE = ('random histories over {parse ok (bindings, macros, imports, references)
         'imports, constants identical (same names, same objects) or exactly {gin.REQUIRED}, configurables still resolve. '
         'distinct = (operation-kind sequence, clear flavour)')
 TIERS = {
-    'quick': {'workers': 8, 'cases': 700, 'timeout': 600},
+    'quick': {'workers': 8, 'cases': 2800, 'timeout': 600},
     'thorough': {'workers': 16, 'cases': 20000, 'timeout': 3000},
 }
 OPS = ['parse', 'parse-fails', 'bind', 'call', 'finalize', 'finalize-rejected', 'unlock', 'singleton', 'constant', 'constant-interactive-overlap', 'enum', 'import']
